@@ -592,15 +592,78 @@ impl<'a> VisitMut for ForPass<'a> {
 }
 
 // ---------------------------------------------------------------------------------------------
+// R14: name a sub-expression: `E` -> `{ let __vx_wN = E; <ghost text>; __vx_wN }` (same
+// evaluation point, value moved through a let).  Addressed by the expression's exact token text.
+
+struct WrapSpec { mtch: String, nth: u64, text: String, used: bool, seen: u64, name: String }
+struct WrapPass<'a> { rules: &'a mut Rules, specs: &'a mut Vec<WrapSpec>, markers: &'a mut Markers }
+impl<'a> VisitMut for WrapPass<'a> {
+    fn visit_expr_mut(&mut self, e: &mut Expr) {
+        let en = norm(&e.to_token_stream().to_string());
+        let mut hit: Option<usize> = None;
+        for (i, sp) in self.specs.iter_mut().enumerate() {
+            if !sp.used && norm(&sp.mtch) == en {
+                if sp.seen == sp.nth { sp.used = true; hit = Some(i); }
+                sp.seen += 1;
+            }
+        }
+        visit_mut::visit_expr_mut(self, e);
+        if let Some(i) = hit {
+            self.rules.hit("R14.subexpr_named");
+            let name = Ident::new(&self.specs[i].name, Span::call_site());
+            let m = self.markers.mk(&self.specs[i].text.clone());
+            let inner = e.clone();
+            let mstmt = Stmt::Expr(Expr::Verbatim(quote!(#m)), None);
+            let mut blk: ExprBlock = parse_quote!({ let #name = #inner; #name });
+            blk.block.stmts.insert(1, mstmt);
+            *e = Expr::Block(blk);
+        }
+    }
+    fn visit_item_mut(&mut self, _i: &mut Item) {}
+}
+
+// ---------------------------------------------------------------------------------------------
+// R13: `L |= R` on bools (Verus has no non-short-circuit bool OR) -> `L = vx_bool_or(L, R)`;
+// the prelude wrapper's body is `a | b`.  Only applied in functions whose contract asks for it.
+
+struct BoolOrAssignPass<'a> { rules: &'a mut Rules }
+impl<'a> VisitMut for BoolOrAssignPass<'a> {
+    fn visit_expr_mut(&mut self, e: &mut Expr) {
+        visit_mut::visit_expr_mut(self, e);
+        if let Expr::Binary(b) = e {
+            if let BinOp::BitOrAssign(_) = b.op {
+                let (l, r) = (&b.left, &b.right);
+                self.rules.hit("R13.bool_or_assign");
+                *e = parse_quote!(#l = vx_bool_or(#l, #r));
+            }
+        }
+    }
+}
+
+// ---------------------------------------------------------------------------------------------
 // R12: closure annotation (types, named return, requires/ensures). Pattern parameters are moved
 // into a `let PAT = __vx_aN;` at the start of the closure body (Rust's own parameter semantics).
 
-struct ClosureSpec { params: Option<Vec<String>>, ret: Option<String>, contract: String, adapter: Option<String> }
-struct ClosurePass<'a> { rules: &'a mut Rules, specs: &'a BTreeMap<u64, ClosureSpec>, markers: &'a mut Markers, errors: &'a mut Vec<String>, used: Vec<u64> }
+struct ClosureSpec { params: Option<Vec<String>>, ret: Option<String>, contract: String, adapter: Option<String>, bind: Option<String> }
+struct ClosurePass<'a> { rules: &'a mut Rules, specs: &'a BTreeMap<u64, ClosureSpec>, markers: &'a mut Markers, errors: &'a mut Vec<String>, used: Vec<u64>, pending: Vec<(Ident, TokenStream)> }
 impl<'a> VisitMut for ClosurePass<'a> {
+    fn visit_block_mut(&mut self, b: &mut Block) {
+        let mut out = vec![];
+        for mut s in b.stmts.drain(..) {
+            let outer = std::mem::take(&mut self.pending);
+            self.visit_stmt_mut(&mut s);
+            for (id, ts) in std::mem::take(&mut self.pending) {
+                out.push(Stmt::Expr(Expr::Verbatim(quote!(let #id = #ts;)), None));
+            }
+            self.pending = outer;
+            out.push(s);
+        }
+        b.stmts = out;
+    }
     fn visit_expr_mut(&mut self, e: &mut Expr) {
         // R7: `RECV.adapter(CLOSURE)` -> `vx_adapter(RECV, CLOSURE)` when the contract names a wrapper
         let mut adapter: Option<String> = None;
+        let mut bind: Option<String> = None;
         if let Expr::MethodCall(mc) = e {
             if mc.args.len() == 1 {
                 if let Expr::Closure(c) = &mc.args[0] {
@@ -608,7 +671,7 @@ impl<'a> VisitMut for ClosurePass<'a> {
                         if let Some(sp) = self.specs.get(&o) {
                             if let Some(a) = &sp.adapter {
                                 let want = a.trim_start_matches("vx_");
-                                if mc.method == want { adapter = Some(a.clone()); } else {
+                                if mc.method == want { adapter = Some(a.clone()); bind = sp.bind.clone(); } else {
                                     self.errors.push(format!("closure {}: adapter {} does not match method {}", o, a, mc.method));
                                 }
                             }
@@ -624,7 +687,16 @@ impl<'a> VisitMut for ClosurePass<'a> {
                 let recv = &mc.receiver;
                 let arg = &mc.args[0];
                 self.rules.hit("R7.adapter_call_to_wrapper");
-                *e = parse_quote!(#f(#recv, #arg));
+                let call = quote!(#f(#recv, #arg));
+                if let Some(b) = bind {
+                    // R11: hoist the adapter call into a `let` right before the enclosing statement
+                    let id = Ident::new(&b, Span::call_site());
+                    self.rules.hit("R11.adapter_call_hoisted");
+                    self.pending.push((id.clone(), call));
+                    *e = parse_quote!(#id);
+                } else {
+                    *e = Expr::Verbatim(call);
+                }
             }
             return;
         }
@@ -877,6 +949,17 @@ fn process_fn(
         _ => ForSel::None,
     };
     ForPass { rules, which }.visit_block_mut(block);
+    // R14
+    let mut wraps: Vec<WrapSpec> = vec![];
+    if let Some(Value::Array(a)) = spec.get("wraps") {
+        for (i, v) in a.iter().enumerate() {
+            wraps.push(WrapSpec { mtch: get_str(v, "match").unwrap_or_default(), nth: v.get("nth").and_then(|x| x.as_u64()).unwrap_or(0), text: get_str(v, "text").unwrap_or_default(), used: false, seen: 0, name: get_str(v, "name").unwrap_or(format!("__vx_w{}", i)) });
+        }
+    }
+    WrapPass { rules, specs: &mut wraps, markers: &mut markers }.visit_block_mut(block);
+    for w in &wraps { if !w.used { errors.push(format!("{}: lost anchor: wrap match={:?} nth={}", path, w.mtch, w.nth)); } }
+    // R13
+    if spec.get("bool_or_assign").is_some() { BoolOrAssignPass { rules }.visit_block_mut(block); }
     // R12
     let mut cspecs: BTreeMap<u64, ClosureSpec> = BTreeMap::new();
     if let Some(Value::Object(m)) = spec.get("closures") {
@@ -887,11 +970,12 @@ fn process_fn(
                 ret: get_str(v, "ret"),
                 contract: get_str(v, "contract").unwrap_or_default(),
                 adapter: get_str(v, "adapter"),
+                bind: get_str(v, "bind"),
             });
         }
     }
     {
-        let mut cp = ClosurePass { rules, specs: &cspecs, markers: &mut markers, errors, used: vec![] };
+        let mut cp = ClosurePass { rules, specs: &cspecs, markers: &mut markers, errors, used: vec![], pending: vec![] };
         cp.visit_block_mut(block);
         let used = cp.used.clone();
         for k in cspecs.keys() {
